@@ -1112,3 +1112,148 @@ impl Algebra for FlipCount {
         Some((o[0] + o[1]) as usize)
     }
 }
+
+// ------------------------------------------------------------------------------------------------
+// Wrapped<A, PAD, REENT>: the algebra A with (a) PAD extra machine words of payload in every node (items of several
+// hundred bytes: an implementation may treat bulky items by another route) and/or (b) item operations that call back
+// into the library: merge / modify / push query and update a thread-local tree of another item type while they run
+// (an item's operations are caller code; a table look-up in another segment tree is lawful there).
+
+#[derive(Clone, Debug)]
+pub struct WItem<I, const PAD: usize, const REENT: bool> {
+    pub inner: I,
+    pub pad: [u64; PAD],
+}
+
+impl<I: Default, const PAD: usize, const REENT: bool> Default for WItem<I, PAD, REENT> {
+    fn default() -> Self {
+        WItem { inner: I::default(), pad: [0; PAD] }
+    }
+}
+
+thread_local! {
+    static AUX_TREE: std::cell::RefCell<Option<rlib_segtree::Segtree<Sum<i64>, ()>>> = std::cell::RefCell::new(None);
+    static AUX_BUSY: std::cell::Cell<bool> = std::cell::Cell::new(false);
+    pub static AUX_CALLS: std::cell::Cell<u64> = std::cell::Cell::new(0);
+}
+
+/// a few operations on the thread's auxiliary tree (11 elements: queries decompose into several nodes)
+fn aux_touch(salt: usize) {
+    if AUX_BUSY.with(|b| b.replace(true)) {
+        return;
+    }
+    AUX_TREE.with(|t| {
+        let mut t = t.borrow_mut();
+        let tree = t.get_or_insert_with(|| {
+            let items: Vec<Sum<i64>> = (0..11).map(|i| Sum::new(i as i64 * 3 + 1)).collect();
+            rlib_segtree::Segtree::from_slice(&items)
+        });
+        let l = 1 + salt % 3;
+        let _ = tree.ask(l, 9 - salt % 2);
+        let _ = tree.ask(0, 10);
+        if salt % 4 == 0 {
+            tree.set(salt % 11, Sum::new(salt as i64 % 7));
+        }
+        let _ = tree.lower_bound(salt % 5, |_x: &Sum<i64>| false);
+    });
+    AUX_CALLS.with(|c| c.set(c.get() + 1));
+    AUX_BUSY.with(|b| b.set(false));
+}
+
+impl<M, I: SegtreeItem<M>, const PAD: usize, const REENT: bool> SegtreeItem<M> for WItem<I, PAD, REENT> {
+    fn merge(left: &Self, right: &Self) -> Self {
+        if REENT {
+            aux_touch(left.pad.len() + 1);
+        }
+        let mut pad = [0u64; PAD];
+        for k in 0..PAD {
+            pad[k] = left.pad[k].wrapping_mul(31).wrapping_add(right.pad[k]);
+        }
+        let inner = I::merge(&left.inner, &right.inner);
+        if REENT {
+            aux_touch(2);
+        }
+        WItem { inner, pad }
+    }
+    fn modify(&mut self, m: &M) {
+        if REENT {
+            aux_touch(4);
+        }
+        self.inner.modify(m);
+    }
+    fn push(&mut self, left: &mut Self, right: &mut Self) {
+        if REENT {
+            aux_touch(7);
+        }
+        self.inner.push(&mut left.inner, &mut right.inner);
+    }
+}
+
+#[derive(Debug, Clone)]
+pub struct Wrapped<A, const PAD: usize, const REENT: bool>(std::marker::PhantomData<A>);
+
+impl<A: Algebra, const PAD: usize, const REENT: bool> Algebra for Wrapped<A, PAD, REENT> {
+    type Item = WItem<A::Item, PAD, REENT>;
+    type Mod = A::Mod;
+    type Elem = A::Elem;
+    type Obs = A::Obs;
+    type Pred = A::Pred;
+    fn name() -> String {
+        format!("{}[{} pad words{}]", A::name(), PAD, if REENT { ", re-entrant item operations" } else { "" })
+    }
+    fn has_mod() -> bool {
+        A::has_mod()
+    }
+    fn max_n() -> usize {
+        A::max_n()
+    }
+    fn gen_elem(rng: &mut Rng, nonneg: bool) -> A::Elem {
+        A::gen_elem(rng, nonneg)
+    }
+    fn gen_mod(rng: &mut Rng, nonneg: bool) -> A::Mod {
+        A::gen_mod(rng, nonneg)
+    }
+    fn leaf(e: &A::Elem) -> Self::Item {
+        let mut pad = [0u64; PAD];
+        for (k, p) in pad.iter_mut().enumerate() {
+            *p = k as u64 + 1;
+        }
+        WItem { inner: A::leaf(e), pad }
+    }
+    fn apply(e: &mut A::Elem, m: &A::Mod) {
+        A::apply(e, m)
+    }
+    fn empty() -> A::Obs {
+        A::empty()
+    }
+    fn extend(o: &mut A::Obs, e: &A::Elem) {
+        A::extend(o, e)
+    }
+    fn extend_left(o: &mut A::Obs, e: &A::Elem) {
+        A::extend_left(o, e)
+    }
+    fn observe(i: &Self::Item) -> A::Obs {
+        A::observe(&i.inner)
+    }
+    fn pending(i: &Self::Item) -> bool {
+        A::pending(&i.inner)
+    }
+    fn gen_pred(rng: &mut Rng, shadow: &[A::Elem]) -> A::Pred {
+        A::gen_pred(rng, shadow)
+    }
+    fn eval(p: &A::Pred, o: &A::Obs) -> bool {
+        A::eval(p, o)
+    }
+    fn search_needs_nonneg() -> bool {
+        A::search_needs_nonneg()
+    }
+    fn obs_len(o: &A::Obs) -> Option<usize> {
+        A::obs_len(o)
+    }
+    fn positional() -> bool {
+        A::positional()
+    }
+    fn at(e: &mut A::Elem, i: usize) {
+        A::at(e, i)
+    }
+}
